@@ -316,6 +316,72 @@ fn e1(ctx: &Ctx, res: &mut PartResult, pb: usize, two_pushers: bool, two_consume
 /// retained positions are not identical everywhere. With a generator seeded per thread from the OS all 48 threads
 /// agreeing has probability < 28^-47 (capacity 2 of 8: 28 possible sets) — a false alarm is out of the question —, while
 /// a constant or otherwise shared seed makes them agree always.
+/// The reservoir as a user configures it: exporters built through the public DogStatsD builder with a reservoir size and
+/// sampling switched on, the two options given in either order, 100 values recorded before the first flush. The histogram
+/// message carries at most `size` values, and its sample rate is values carried / values recorded.
+fn builder_order_part(ctx: &Ctx, res: &mut PartResult) {
+    use metrics::{Key, Recorder};
+    static META: metrics::Metadata<'static> = metrics::Metadata::new("t", metrics::Level::INFO, None);
+    res.engine = "E4 exporters built through the public builder: reservoir size x option order, datagrams read from the agent's socket".into();
+    let mut states = vseq::States::new();
+    let dir = ctx.run_dir();
+    const PUSHED: usize = 100;
+    for size in [1usize, 4, 2000] {
+        for size_first in [false, true] {
+            let tag = format!("c16-size{}-{}", size, if size_first { "size-then-sampling" } else { "sampling-then-size" });
+            let got = vcore::dsd::run_exporter(
+                &dir,
+                &tag,
+                |b| Ok(if size_first { b.with_histogram_reservoir_size(size).with_histogram_sampling(true) } else { b.with_histogram_sampling(true).with_histogram_reservoir_size(size) }.send_histograms_as_distributions(true)),
+                |rec| {
+                    let h = rec.register_histogram(&Key::from_name("lat"), &META);
+                    for i in 0..PUSHED {
+                        h.record(i as f64);
+                    }
+                },
+                std::time::Duration::from_millis(3000),
+                |got| got.iter().any(|d| d.starts_with(b"lat:")),
+            );
+            res.executions += 1;
+            res.transitions += PUSHED as u64 + 1;
+            let cfg = json!({"builder_order": tag});
+            let got = match got {
+                Ok(g) => g,
+                Err(e) => {
+                    res.error = Some(e);
+                    return;
+                }
+            };
+            let mut values = 0usize;
+            let mut rates: Vec<Option<String>> = Vec::new();
+            for d in &got {
+                for line in d.split_inclusive(|b| *b == b'\n') {
+                    if let Ok(m) = vcore::statsd::parse_message(line) {
+                        if m.name == "lat" {
+                            values += m.values.len();
+                            rates.push(m.rate.clone());
+                        }
+                    }
+                }
+            }
+            states.add(&(size, size_first, values.min(size + 1)));
+            let want = size.min(PUSHED);
+            let want_rate = want as f64 / PUSHED as f64;
+            let rate_ok = rates.iter().all(|r| match r {
+                Some(r) => (r.parse::<f64>().unwrap_or(-1.0) - want_rate).abs() < 1e-9,
+                None => want == PUSHED,
+            });
+            if values != want || !rate_ok {
+                let sig = if values > size { "drain-yields-more-than-capacity" } else { "sample-rate-not-yielded-over-pushed" };
+                res.violation(sig, format!("exporter built with {} (reservoir size {}), {} values recorded before the first flush: the agent received {} values with sample rates {:?}; expected {} values at rate {}", if size_first { "with_histogram_reservoir_size(n) then with_histogram_sampling(true)" } else { "with_histogram_sampling(true) then with_histogram_reservoir_size(n)" }, size, PUSHED, values, rates, want, want_rate), cfg);
+            }
+        }
+    }
+    res.states = states.len();
+    res.distinct_outcomes = states.len();
+    res.sample(json!({"size": 4, "order": "size then sampling", "pushed": 100, "expected": "4 values |@0.04"}));
+}
+
 fn rng_part(res: &mut PartResult) {
     res.engine = "assumption check behind the E3 RNG seam: the real per-thread generator on fresh threads (not an enumeration)".into();
     let mut states = vseq::States::new();
@@ -490,6 +556,7 @@ fn parts(ctx: &Ctx) -> Vec<PartSpec> {
         vec![
             PartSpec::new("e3-tree-cap0-3", json!({"caps": [0, 1, 2, 3], "extra": 3})),
             PartSpec::new("rng-per-thread", json!({"rng": true})),
+            PartSpec::new("e4-builder-reservoir-size-x-option-order", json!({"builder_order": true})).budget(120.0),
             PartSpec::new("non-finite-values", json!({"nonfinite": true})),
             PartSpec::new("e1-push-vs-consume-pb2", json!({"e1": 2, "two": false})),
             PartSpec::new("e1-2pushers-vs-consume-pb2", json!({"e1": 2, "two": true})),
@@ -500,6 +567,7 @@ fn parts(ctx: &Ctx) -> Vec<PartSpec> {
         vec![
             PartSpec::new("e3-tree-cap0-3", json!({"caps": [0, 1, 2, 3], "extra": 6})).budget(1500.0),
             PartSpec::new("rng-per-thread", json!({"rng": true})),
+            PartSpec::new("e4-builder-reservoir-size-x-option-order", json!({"builder_order": true})).budget(120.0),
             PartSpec::new("non-finite-values", json!({"nonfinite": true})),
             PartSpec::new("e3-tree-cap4", json!({"caps": [4], "extra": 5})).budget(1500.0),
             PartSpec::new("e3-tree-cap5", json!({"caps": [5], "extra": 5})).budget(1500.0),
@@ -518,6 +586,8 @@ fn run(ctx: &Ctx, spec: &PartSpec) -> PartResult {
     let mut res = PartResult::new(&spec.name, "");
     if spec.arg["nonfinite"].as_bool() == Some(true) {
         nonfinite_part(&mut res);
+    } else if spec.arg["builder_order"].as_bool() == Some(true) {
+        builder_order_part(ctx, &mut res);
     } else if spec.arg["rng"].as_bool() == Some(true) {
         rng_part(&mut res);
     } else if let Some(pb) = spec.arg["e1"].as_u64() {
@@ -533,7 +603,7 @@ fn main() {
     driver::main(CheckDef {
         prop: "C16",
         level: "model_checking",
-        rule: "E3: for every capacity in the list, every push count 0..=cap+extra in cycle 1 and {0,1,cap+1} in cycle 2, the complete tree of answers of every fastrand(upper) call (RNG seam) is enumerated on the real AtomicSamplingReservoir; every leaf is checked (yield subset/count/sample rate/fresh start) and retention probabilities are summed with exact rational weights; streams of non-finite values and signed zeros (compared by bit pattern) for capacities 1-8 over every seam answer; the batched entry point record_many with counts 0, 1, capacity, capacity+1 and 3*capacity+1; E1: all SC interleavings (pb-bounded) of pushes with consumes (one or two pushing threads, one or two consuming threads); distinct = distinct (configuration, yields) leaves / outcomes; assumption check of the seam: 60000 trials per (capacity, n) in {(1,3),(1,5),(2,5),(3,7),(2,4),(1,11)} on the real generator, every position retained capacity/n of the time within 7 sigma (statistical, not an enumeration)",
+        rule: "E3: for every capacity in the list, every push count 0..=cap+extra in cycle 1 and {0,1,cap+1} in cycle 2, the complete tree of answers of every fastrand(upper) call (RNG seam) is enumerated on the real AtomicSamplingReservoir; every leaf is checked (yield subset/count/sample rate/fresh start) and retention probabilities are summed with exact rational weights; streams of non-finite values and signed zeros (compared by bit pattern) for capacities 1-8 over every seam answer; the batched entry point record_many with counts 0, 1, capacity, capacity+1 and 3*capacity+1; E1: all SC interleavings (pb-bounded) of pushes with consumes (one or two pushing threads, one or two consuming threads); distinct = distinct (configuration, yields) leaves / outcomes; assumption check of the seam: 60000 trials per (capacity, n) in {(1,3),(1,5),(2,5),(3,7),(2,4),(1,11)} on the real generator, every position retained capacity/n of the time within 7 sigma (statistical, not an enumeration); plus exporters built through the public DogStatsD builder with reservoir sizes {1, 4, 2000} and sampling on, the two options in either order, 100 values before the first flush: at most `size` values arrive, at rate arrived / recorded",
         assumptions: &["the RNG is uniform over 0..upper (the seam replaces it by enumeration of all answers with weight 1/upper); the part rng-per-thread checks, outside the enumeration, that the real generator does not give every fresh thread the same answers", "E1: sequential consistency (the reservoir uses Relaxed orderings; weak-memory effects are not explored)"],
         parts,
         run,
